@@ -6,6 +6,7 @@ import (
 	"os"
 	"path/filepath"
 	"sort"
+	"time"
 
 	"verifharness/kit"
 )
@@ -67,7 +68,15 @@ func generate(seed uint64, n int, tier, corpusDir string, shard int, out *kit.Ou
 		}
 	}
 	rng := kit.NewRng(seed + uint64(shard)*1000003)
-	for i := 0; i < n; i++ {
+	// a tree on which the instances get stuck must not cost minutes: each stuck scenario is
+	// abandoned after a few seconds and reported as a rejected case; after a handful the run stops
+	stuck := 0
+	start := time.Now()
+	budget := 150 * time.Second
+	if tier != "quick" {
+		budget = 40 * time.Minute
+	}
+	for i := 0; i < n && stuck < 6 && time.Since(start) < budget; i++ {
 		r := rng.Fork()
 		p := pickProfile(r)
 		sc := &scenario{Backend: "mem", NP: p.np, Keys: p.keys}
@@ -79,6 +88,11 @@ func generate(seed uint64, n int, tier, corpusDir string, shard int, out *kit.Ou
 			return err
 		}
 		c.Tags = append(c.Tags, "profile:"+p.name)
+		for _, t := range c.Tags {
+			if t == "stuck" {
+				stuck++
+			}
+		}
 		out.Emit(c)
 	}
 	return nil
